@@ -81,9 +81,12 @@ def run_case(seed, tier, rec, st):
             body = []
             if tag is not None and mode != "tagger":
                 body.append(f"    {tagfield} = {tag!r}")
-            body.append(f"    f_{name}: int = 0")
-            if packed:
-                body.append(f"    b_{name}: bytes = b''")
+            # a variant may add nothing but its tag (no fields of its own)
+            bare = tag is not None and mode != "tagger" and not extra and rng.random() < 0.3
+            if not bare:
+                body.append(f"    f_{name}: int = 0")
+                if packed:
+                    body.append(f"    b_{name}: bytes = b''")
             if extra:
                 body.append(extra)
             src = f"@dataclass\nclass {name}({parent}):\n" + "\n".join(body) + "\n"
@@ -116,9 +119,19 @@ def run_case(seed, tier, rec, st):
             order.append("R")
             roots = ["R"]
             wirings = {"config": lambda d: mod.R.from_dict(d)}
+            if rng.random() < 0.6:
+                # the root as the type of a holder's members (the nested, per-format methods are compiled on demand)
+                fam.exec_src(f"@dataclass\nclass HC{base or '(DataClassDictMixin)'}:\n    p: R\n    q: List[R] = field(default_factory=list)\n")
+                wirings["config-holder"] = lambda d: mod.HC.from_dict({"p": d}).p
+                wirings["config-holder-list"] = lambda d: mod.HC.from_dict({"p": d, "q": [d]}).q[0]
+                if packed:
+                    import msgpack as _mp2
+                    wirings["config-holder-msgpack"] = (lambda d: mod.HC.from_msgpack(_mp2.packb({"p": dict(d, **{f"b_{c}": b"\x00raw" for c in order if c != "R" and f"b_{c}" in getattr(getattr(mod, c), "__annotations__", {})})}, use_bin_type=True)).p)
             if packed:
                 import msgpack as _mp
-                wirings = {"config-msgpack": lambda d: mod.R.from_msgpack(_mp.packb(dict(d, **{f"b_{c}": b"\x00raw" for c in order if c != "R"}), use_bin_type=True))}
+                # BOTH entry points on one hierarchy, mixed in one history (the registry of variants filled by one format's
+                # dispatcher must not mislead the other's)
+                wirings["config-msgpack"] = (lambda d: mod.R.from_msgpack(_mp.packb(dict(d, **{f"b_{c}": b"\x00raw" for c in order if c != "R" and f"b_{c}" in getattr(getattr(mod, c), "__annotations__", {})}), use_bin_type=True)))
             eligible_root = False        # config-level: subtypes only
         elif mode in ("annotated", "tagger"):
             root_tag = tags.pop() if rng.random() < 0.5 else None
